@@ -28,9 +28,28 @@ type Case struct {
 	Continuous bool         `json:"continuous"`
 	NowMS      int64        `json:"now_ms"`
 	Kind       string       `json:"instant_kind"`
+	// StopS: optional stop time (s). After it the MPD is static; the periods must still be the wall-clock tiles P<k>.
+	StopS int64 `json:"stop,omitempty"`
+	// ContFirst: continuous_1 is written before periods_N in the URL (the order of options is free)
+	ContFirst bool `json:"continuous_first,omitempty"`
+}
+
+// effNow is the instant whose segments the MPD describes: the request instant, or the stop time once that has passed.
+func (c Case) effNow() int64 {
+	if c.StopS > 0 && c.NowMS > c.StopS*1000 {
+		return c.StopS * 1000
+	}
+	return c.NowMS
 }
 
 const maxNowMS = 4_102_444_800_000
+
+func min64(a, b int64) int64 {
+	if a < b {
+		return a
+	}
+	return b
+}
 
 func segDurMS(e *env.Env) int64 {
 	// livesim2 documents SegmentDurMS as the smallest average segment duration over the representations (rounded)
@@ -106,6 +125,17 @@ func genCase(t *rapid.T) (Case, *env.Env) {
 	if c.NowMS > maxNowMS {
 		c.NowMS = maxNowMS
 	}
+	c.ContFirst = c.Continuous && rapid.IntRange(0, 2).Draw(t, "cont-first") == 0
+	if rapid.IntRange(0, 4).Draw(t, "stop?") == 0 && c.NowMS >= 2000 {
+		switch rapid.SampledFrom([]string{"passed", "passed", "passed-long-ago", "ahead"}).Draw(t, "stopkind") {
+		case "passed":
+			c.StopS = c.NowMS/1000 - int64(rapid.IntRange(0, int(min64(2*P/1000+5, c.NowMS/1000-1))).Draw(t, "stop-back"))
+		case "passed-long-ago":
+			c.StopS = c.NowMS/1000 - int64(rapid.IntRange(0, int(min64(100*P/1000, c.NowMS/1000-1))).Draw(t, "stop-back"))
+		default:
+			c.StopS = c.NowMS/1000 + 1 + int64(rapid.IntRange(0, 100).Draw(t, "stop-ahead"))
+		}
+	}
 	return c, e
 }
 
@@ -124,10 +154,18 @@ func checkCase(c Case, e *env.Env) (*hx.Violation, info) {
 	var inf info
 	sd := segDurMS(e)
 	base := c.Cfg.Parts()
-	multi := append(append([]string{}, base...), "periods_"+strconv.Itoa(c.PPH))
-	if c.Continuous {
+	if c.StopS > 0 {
+		base = append(base, "stop_"+strconv.FormatInt(c.StopS, 10))
+	}
+	multi := append([]string{}, base...)
+	if c.Continuous && c.ContFirst {
 		multi = append(multi, "continuous_1")
 	}
+	multi = append(multi, "periods_"+strconv.Itoa(c.PPH))
+	if c.Continuous && !c.ContFirst {
+		multi = append(multi, "continuous_1")
+	}
+	effNow := c.effNow()
 	murl := ls.URL(multi, e.Asset.Path, c.MPD, c.NowMS)
 	mr := e.Srv.Get(murl)
 	P := int64(3600 / c.PPH)
@@ -187,11 +225,11 @@ func checkCase(c Case, e *env.Env) (*hx.Violation, info) {
 		}
 	}
 	lastK := pk[len(pk)-1]
-	if c.NowMS/(P*1000) != lastK {
-		return hx.V("last-period", "%s: last period is P%d but now=%d ms lies in period %d", murl, lastK, c.NowMS, c.NowMS/(P*1000)), inf
+	if effNow/(P*1000) != lastK {
+		return hx.V("last-period", "%s: last period is P%d but now=%d ms (stop %d s) lies in period %d", murl, lastK, c.NowMS, c.StopS, effNow/(P*1000)), inf
 	}
 	firstStartMS := pk[0] * P * 1000
-	get := func(parts []string, name string) ls.Resp { return e.Srv.Get(ls.URL(parts, e.Asset.Path, name, c.NowMS)) }
+	get := func(parts []string, name string) ls.Resp { return e.Srv.Get(ls.URL(parts, e.Asset.Path, name, effNow)) }
 	nonEmpty := map[int64]bool{}
 	for ai := range sm.Periods[0].AS {
 		sas := &sm.Periods[0].AS[ai]
@@ -237,7 +275,7 @@ func checkCase(c Case, e *env.Env) (*hx.Violation, info) {
 					return hx.V("period-startnumber", "%s: period %s %s startNumber=%d; the single-period segment starting at the period start (t=%d) has number %d", murl, mm.Periods[pi].ID, kind, sn, pto, ssn+pto/d), inf
 				}
 				// fetch it if it is available now (period start + one segment <= now) and inside the window
-				relMS := c.NowMS
+				relMS := effNow
 				endMS := (pto + d) * 1000 / ts
 				if kind == "image" || relMS < endMS-c.Cfg.AtoMS+1 || relMS > endMS-c.Cfg.AtoMS+c.Cfg.TsbdS*1000 || sn >= 1<<32-1 {
 					continue
@@ -373,8 +411,16 @@ func TestC06(t *testing.T) {
 		if c.Target.Layout != nil {
 			cls = append(cls, "asset:generated")
 		}
+		if c.StopS > 0 && c.NowMS > c.StopS*1000 {
+			cls = append(cls, "after-stop")
+		} else if c.StopS > 0 {
+			cls = append(cls, "stop-ahead")
+		}
+		if c.ContFirst {
+			cls = append(cls, "continuous-before-periods")
+		}
 		run.Eval(cls...)
-		run.Sample(map[string]any{"asset": c.Target.Name(), "mpd": c.MPD, "url_parts": c.Cfg.Parts(), "pph": c.PPH, "continuous": c.Continuous, "now_ms": c.NowMS, "periods": inf.periods, "segments_mapped": inf.mapped})
+		run.Sample(map[string]any{"asset": c.Target.Name(), "mpd": c.MPD, "url_parts": c.Cfg.Parts(), "pph": c.PPH, "continuous": c.Continuous, "now_ms": c.NowMS, "stop_s": c.StopS, "periods": inf.periods, "segments_mapped": inf.mapped})
 		if v != nil {
 			if v.Kind == "harness" {
 				rt.Fatalf("HARNESS: %s", v.Msg)
